@@ -44,6 +44,7 @@ struct TCB {
   int choice = 0;          // answer to the last CHOICE point
   bool in_segment = false; // segment policy: a protected-field segment is open
   bool spinning = false;   // last point was a SPIN
+  int spin_streak = 0;     // consecutive spin-wait iterations without acquiring the lock
   std::unique_ptr<std::thread> plain;
   std::unique_ptr<unodb::qsbr_thread> qsbr;
 };
@@ -159,6 +160,10 @@ class Sched {
     if (!inst_->policy_(*s, e, a, v)) return;
     s->pend = Pending{pkind::HOOK, e, a, v, 0};
     s->spinning = (e == ev::SPIN);
+    if (e == ev::SPIN)
+      ++s->spin_streak;
+    else if (e != ev::L_LOAD)
+      s->spin_streak = 0;
     yield();
   }
 
